@@ -115,7 +115,7 @@ def remove_string_escapes(value: str) -> str:
     See Also:
         - https://github.com/openapi-generators/openapi-python-client/security/advisories/GHSA-9x4c-63pf-525f
     """
-    return value.replace('"', r"\"")
+    return value.replace("\\", r"\\").replace('"', r"\"").replace("\n", r"\n").replace("\r", r"\r")
 
 
 def get_content_type(content_type: str, config: Config) -> str | None:
